@@ -60,12 +60,12 @@ structure State where
   deriving Repr, Inhabited
 
 def State.lookup (st : State) (id : Nat) : Option (List Frag6) :=
-  match st.flows.find? (fun p => p.1 == id) with
+  match st.flows.find? (fun p => decide (p.1 = id)) with
   | some p => some p.2
   | none => none
 
 def State.set (st : State) (id : Nat) (l : List Frag6) : State :=
-  { flows := (id, l) :: st.flows.filter (fun p => !(p.1 == id)) }
+  { flows := (id, l) :: st.flows.filter (fun p => !decide (p.1 = id)) }
 
 /-- The part of DefragIPv6 after the list has been updated. -/
 def finish (l : List Frag6) : Reply :=
@@ -80,12 +80,20 @@ def finish (l : List Frag6) : Reply :=
       | some (s, d) => .out s d n b
       | none => .panic .nilDeref          -- f.ipv6.TrafficClass with f.ipv6 == nil
 
-/-- DefragIPv6(ipv6, fg): `src dst` stand for the *layers.IPv6 passed along. -/
+/-- The `fragment` record DefragIPv6 creates: the header pointer is kept only for offset 0. -/
+def norm (src dst : Nat) (x : Frag6) : Frag6 :=
+  { x with hdr := if x.off = 0 then some (src, dst) else none }
+
+/-- The list stored for an Identification (`[]` when there is no entry). -/
+def State.chain (st : State) (id : Nat) : List Frag6 :=
+  match st.lookup id with
+  | some l => l
+  | none => []
+
+/-- DefragIPv6(ipv6, fg): `src dst` stand for the *layers.IPv6 passed along.
+    (`ins x [] = [x]` is the "first fragment for this Identification" branch.) -/
 def defrag (st : State) (src dst id : Nat) (x : Frag6) : State × Reply :=
-  let x := { x with hdr := if x.off = 0 then some (src, dst) else none }
-  let l := match st.lookup id with
-    | some l => ins x l
-    | none => [x]
+  let l := ins (norm src dst x) (st.chain id)
   (st.set id l, finish l)
 
 /-- DiscardOlderThan with a cut-off later than every entry (`future = true`) or earlier. -/
